@@ -310,6 +310,24 @@ class RunAnalysis:
                                 f"while other threads operated on it: {len(entries)} entries (limit {self.spec[fi]['limit']}), {len(bad)} key(s) in only one of store / queue "
                                 f"(schedule [{sched}])", replay)
             prog_ops = {op.split(" ")[0] for prog in self.programs for op in prog if op}
+            # C13 / C12: the async store/queue bijection holds after every critical section (C18.async_consistent_at_every_point), so a
+            # queue slot for a key the cache no longer stores, or a duplicated slot, after invalidations that raced with calls is a
+            # capacity-bookkeeping error the invalidation left behind (the slot counts against the limit / is evicted in place of a live entry)
+            for lbl, d in dumps.items():
+                if d is None:
+                    continue
+                fi = int(lbl.split(":")[0])
+                if not self.spec[fi]["is_async"]:
+                    continue
+                entries, queue = d
+                ghosts = [k for k in queue if k not in entries]
+                if ghosts or len(set(queue)) != len(queue):
+                    if prog_ops & {"with", "allwith"}:
+                        fail("C13", f"after conditional invalidations racing with calls, the queue of async cache {self.spec[fi]['name']} holds {len(ghosts)} slot(s) for keys it no longer "
+                                    f"stores and {len(queue) - len(set(queue))} duplicate slot(s): the capacity bookkeeping is no longer exact (schedule [{sched}])", replay)
+                    if prog_ops & {"tag", "event", "dep", "cache"}:
+                        fail("C12", f"after group / name invalidations racing with calls, the queue of async cache {self.spec[fi]['name']} holds {len(ghosts)} slot(s) for keys it no longer "
+                                    f"stores and {len(queue) - len(set(queue))} duplicate slot(s) (schedule [{sched}])", replay)
             for lbl, d in dumps.items():
                 if d is None:
                     continue
